@@ -1200,6 +1200,44 @@ package restful
 //@ ensures mimeLow(l, x, k) == rkLow(h, n, x, k)
 //@ trigger mimeLow(l, x, k), rkLow(h, n, x, k)
 
+// optional whitespace around "," does not change what a range says: a range text with an extra space before
+// or behind it has the same media type and the same weight (around ";" and "=" the oracle — and the code, by
+// the contract of sortedMimes — trims each part)
+//@ lemma C05.ows-left
+//@ props C05
+//@ forall e string
+//@ ensures tRange(" "+e) == tRange(e)
+
+//@ lemma C05.trimleft-space
+//@ props C05
+//@ forall s string, n int
+//@ induction n general
+//@ requires len(s) == n && model_strings_TrimLeft(s, " ") != ""
+//@ ensures model_strings_TrimLeft(s+" ", " ") == model_strings_TrimLeft(s, " ") + " "
+
+//@ lemma C05.trimleft-blank
+//@ props C05
+//@ forall s string, n int
+//@ induction n general
+//@ requires len(s) == n && model_strings_TrimLeft(s, " ") == ""
+//@ ensures model_strings_TrimLeft(s+" ", " ") == ""
+
+//@ lemma C05.ows-right
+//@ props C05
+//@ uses C05.trimleft-space
+//@ uses C05.trimleft-blank
+//@ forall e string
+//@ ensures tRange(e+" ") == tRange(e)
+
+//@ lemma C05.ows-range
+//@ props C05
+//@ uses C05.ows-left
+//@ uses C05.ows-right
+//@ opt opaque tRange
+//@ forall e string
+//@ ensures left: tMedia(" "+e) == tMedia(e) && tParsed(" "+e) == tParsed(e) && tQ(" "+e) == tQ(e)
+//@ ensures right: tMedia(e+" ") == tMedia(e) && tParsed(e+" ") == tParsed(e) && tQ(e+" ") == tQ(e)
+
 //@ lemma C05.rank-range
 //@ props C05
 //@ forall h string, n int, k int
@@ -1357,6 +1395,61 @@ package restful
 //@ requires req != nil && req.Request != nil
 //@ modifies ghost $g.usenumber
 //@ callsite ext:(*encoding/json.Decoder).Decode numbers: ghostInt("usenumber", self) == 1
+
+// the convenience writers pass status, content type and value on unchanged (C05 C15)
+//@ func (*Response).WriteAsXml
+//@ props C05 C15
+//@ requires r != nil && r.ResponseWriter != nil
+//@ modifies r.statusCode, r.contentLength, headers, ghost $g.wstatus, ghost $g.whcalls, ghost $g.accepted, ghost $g.lasterr, ghost $g.wcalls
+//@ ensures status: writeHeaderCalls(r.ResponseWriter) != old(writeHeaderCalls(r.ResponseWriter)) ==> r.statusCode == 200 && statusReceived(r.ResponseWriter) == 200
+//@ ensures content-type: value != nil && writeHeaderCalls(r.ResponseWriter) != old(writeHeaderCalls(r.ResponseWriter)) ==> hdrOf(r.ResponseWriter).Get("Content-Type") == MIME_XML
+//@ ensures write-error: r.prettyPrint && writeCalls(r.ResponseWriter) != old(writeCalls(r.ResponseWriter)) ==> result == lastWriteErr(r.ResponseWriter)
+
+//@ func (*Response).WriteHeaderAndXml
+//@ props C05 C15
+//@ requires r != nil && r.ResponseWriter != nil
+//@ modifies r.statusCode, r.contentLength, headers, ghost $g.wstatus, ghost $g.whcalls, ghost $g.accepted, ghost $g.lasterr, ghost $g.wcalls
+//@ ensures status: writeHeaderCalls(r.ResponseWriter) != old(writeHeaderCalls(r.ResponseWriter)) ==> r.statusCode == status && statusReceived(r.ResponseWriter) == status
+//@ ensures content-type: value != nil && writeHeaderCalls(r.ResponseWriter) != old(writeHeaderCalls(r.ResponseWriter)) ==> hdrOf(r.ResponseWriter).Get("Content-Type") == MIME_XML
+//@ ensures write-error: r.prettyPrint && writeCalls(r.ResponseWriter) != old(writeCalls(r.ResponseWriter)) ==> result == lastWriteErr(r.ResponseWriter)
+
+//@ func (*Response).WriteAsJson
+//@ props C05 C15
+//@ requires r != nil && r.ResponseWriter != nil
+//@ modifies r.statusCode, r.contentLength, headers, ghost $g.wstatus, ghost $g.whcalls, ghost $g.accepted, ghost $g.lasterr, ghost $g.wcalls
+//@ ensures status: writeHeaderCalls(r.ResponseWriter) != old(writeHeaderCalls(r.ResponseWriter)) ==> r.statusCode == 200 && statusReceived(r.ResponseWriter) == 200
+//@ ensures content-type: value != nil && writeHeaderCalls(r.ResponseWriter) != old(writeHeaderCalls(r.ResponseWriter)) ==> hdrOf(r.ResponseWriter).Get("Content-Type") == MIME_JSON
+//@ ensures write-error: r.prettyPrint && writeCalls(r.ResponseWriter) != old(writeCalls(r.ResponseWriter)) ==> result == lastWriteErr(r.ResponseWriter)
+
+//@ func (*Response).WriteJson
+//@ props C05 C15
+//@ requires r != nil && r.ResponseWriter != nil
+//@ modifies r.statusCode, r.contentLength, headers, ghost $g.wstatus, ghost $g.whcalls, ghost $g.accepted, ghost $g.lasterr, ghost $g.wcalls
+//@ ensures status: writeHeaderCalls(r.ResponseWriter) != old(writeHeaderCalls(r.ResponseWriter)) ==> r.statusCode == 200 && statusReceived(r.ResponseWriter) == 200
+//@ ensures content-type: value != nil && writeHeaderCalls(r.ResponseWriter) != old(writeHeaderCalls(r.ResponseWriter)) ==> hdrOf(r.ResponseWriter).Get("Content-Type") == contentType
+//@ ensures write-error: r.prettyPrint && writeCalls(r.ResponseWriter) != old(writeCalls(r.ResponseWriter)) ==> result == lastWriteErr(r.ResponseWriter)
+
+//@ func (*Response).WriteHeaderAndJson
+//@ props C05 C15
+//@ requires r != nil && r.ResponseWriter != nil
+//@ modifies r.statusCode, r.contentLength, headers, ghost $g.wstatus, ghost $g.whcalls, ghost $g.accepted, ghost $g.lasterr, ghost $g.wcalls
+//@ ensures status: writeHeaderCalls(r.ResponseWriter) != old(writeHeaderCalls(r.ResponseWriter)) ==> r.statusCode == status && statusReceived(r.ResponseWriter) == status
+//@ ensures content-type: value != nil && writeHeaderCalls(r.ResponseWriter) != old(writeHeaderCalls(r.ResponseWriter)) ==> hdrOf(r.ResponseWriter).Get("Content-Type") == contentType
+//@ ensures write-error: r.prettyPrint && writeCalls(r.ResponseWriter) != old(writeCalls(r.ResponseWriter)) ==> result == lastWriteErr(r.ResponseWriter)
+
+//@ func (*Response).WriteEntity
+//@ props C05 C15
+//@ requires r != nil && r.ResponseWriter != nil && ghostInt("lock.ptr", entityAccessRegistry.protection) >= 0
+//@ requires registered: allRegistered(entityAccessRegistry, r.routeProduces)
+//@ modifies r.statusCode, cb(r), headers, ghost $trace, ghost $g.wstatus, ghost $g.whcalls, ghost $g.accepted, ghost $g.lasterr, ghost $g.wcalls
+//@ callsite (*Response).WriteHeaderAndEntity ok: arg0 == r && arg1 == 200 && same(arg2, value)
+
+// WriteError: the status is recorded and sent, the result is the error of the body Write (C15)
+//@ func (*Response).WriteError
+//@ props C15
+//@ requires r != nil && r.ResponseWriter != nil
+//@ modifies r.err, r.statusCode, r.contentLength, ghost $g.wstatus, ghost $g.whcalls, ghost $g.accepted, ghost $g.lasterr, ghost $g.wcalls
+//@ ensures status: r.statusCode == httpStatus && statusReceived(r.ResponseWriter) == httpStatus
 
 // ---------------------------------------------------------------------------
 // http middleware adapter (C06)
@@ -1722,6 +1815,7 @@ package restful
 //@ requires r != nil && r.ResponseWriter != nil
 //@ modifies r.err, r.statusCode, r.contentLength, ghost $g.wstatus, ghost $g.whcalls, ghost $g.accepted, ghost $g.lasterr, ghost $g.wcalls
 //@ ensures status: r.statusCode == httpStatus && statusReceived(r.ResponseWriter) == httpStatus
+//@ ensures write-error: result == lastWriteErr(r.ResponseWriter) && writeCalls(r.ResponseWriter) == old(writeCalls(r.ResponseWriter)) + 1
 //@ nopanic
 
 //@ func writeServiceError
